@@ -46,6 +46,10 @@ const (
 	CorruptWide   = 4
 	CorruptBuf    = 5
 	CorruptKid    = 6
+	PanicInCommit = 7 // (1 b 101 7 0 0 0): pipeline.Commit panicked under batcher b's Controller.Commit
+	// (1 b 101 8 seq 0 0): batcher b called Controller.Commit for an event object that it does not own (handed to the other
+	// batcher in the meantime, or already committed); the call was not forwarded to the pipeline (see owners)
+	NotOwnerCommit = 8
 )
 
 // PadByte is byte i of the pad of the event read at `off` (feeder op 6).
@@ -284,6 +288,7 @@ type outCfg struct {
 	retentionMs int
 	multPct     int
 	maintMs     int // > 0: MaintenanceFn / MaintenanceInterval of the main batcher
+	dqDelayMs   int // > 0: every send of the dead-queue output blocks that long before it acknowledges
 }
 
 type fakeOutput struct {
@@ -299,6 +304,7 @@ type fakeOutput struct {
 	failsLeft map[int64]int
 	router    *pipeline.Router
 	maintN    atomic.Int64
+	own       *owners
 }
 
 var errSend = errors.New("scripted send failure")
@@ -315,6 +321,11 @@ func (o *fakeOutput) send(bidx int, batch *pipeline.Batch) error {
 	ids[1] = int64(n)
 	o.log.add(obj, LOutSaw, ids[0], ids[1], 0, 0)
 	if bidx != 0 {
+		// a blocking dead-queue output: between the hand-over (LDqOut / Add on batcher 1) and this return no output has
+		// acknowledged the events, so a main batcher that commits them anyway is visible in the trace
+		if o.cfg.dqDelayMs > 0 {
+			time.Sleep(time.Duration(o.cfg.dqDelayMs) * time.Millisecond)
+		}
 		return nil
 	}
 	delay, fails := 0, 0
@@ -343,10 +354,52 @@ type recCtl struct {
 	log   *caseLog
 	obj   func() any
 	inner pipeline.OutputPluginController
+	bidx  int
+	own   *owners
+}
+
+// owners: which batcher (0 main, 1 dead queue) an event OBJECT was last handed to by the real code (OutputPlugin.Out of the
+// main output / of the dead queue via Router.Fail), until that batcher's Controller.Commit of it is forwarded.  A batcher
+// that commits an event object it does not own - the main batcher after the batch went to the dead queue, any batcher a second
+// time - would make the real pipeline finalize one event twice: the object is back in the pool or already re-used by then, and
+// the pipeline dies in an unrelated goroutine (nil stream in finalize), taking all cases of the process with it.  Such a
+// Commit is recorded like every other (label 100: the monitors judge it), reported as label 101 / NotOwnerCommit, and NOT
+// forwarded.  On correct code the check never fires.
+type owners struct {
+	mu sync.Mutex
+	m  map[*pipeline.Event]int
+}
+
+func (w *owners) set(e *pipeline.Event, b int) {
+	w.mu.Lock()
+	w.m[e] = b
+	w.mu.Unlock()
+}
+
+func (w *owners) take(e *pipeline.Event, b int) bool {
+	w.mu.Lock()
+	defer w.mu.Unlock()
+	if cur, ok := w.m[e]; !ok || cur != b {
+		return false
+	}
+	delete(w.m, e)
+	return true
 }
 
 func (c *recCtl) Commit(e *pipeline.Event) {
 	c.log.add(c.obj(), LCommitEv, int64(e.SeqID), e.VerifStreamID(), int64(e.Size), int64(e.VerifKind()))
+	if !c.own.take(e, c.bidx) {
+		c.log.add(c.obj(), LPanic, NotOwnerCommit, int64(e.SeqID), 0, 0)
+		return
+	}
+	// the real pipeline may panic inside Commit (e.g. the second finalize of an event that two batchers both believe to own
+	// dereferences its cleared stream): that must not take the harness process and the other cases down.  It is recorded as
+	// a panic of this batcher (label 101: monitor 1 and the batcher LTS both reject it) and the worker goes on
+	defer func() {
+		if r := recover(); r != nil {
+			c.log.add(c.obj(), LPanic, PanicInCommit, 0, 0, 0)
+		}
+	}()
 	c.inner.Commit(e)
 }
 func (c *recCtl) Error(s string) { c.inner.Error(s) }
@@ -357,6 +410,7 @@ func (d *dqPlugin) Start(pipeline.AnyConfig, *pipeline.OutputPluginParams) {}
 func (d *dqPlugin) Stop()                                                  {}
 func (d *dqPlugin) Out(e *pipeline.Event) {
 	d.o.log.add(d.o.dq, LDqOut, int64(e.SeqID), e.VerifStreamID(), 0, 0)
+	d.o.own.set(e, 1)
 	d.o.dq.Add(e)
 }
 
@@ -387,6 +441,7 @@ func (o *fakeOutput) Start(_ pipeline.AnyConfig, p *pipeline.OutputPluginParams)
 	o.ctl = p.Controller
 	o.router = p.Router
 	o.failsLeft = map[int64]int{}
+	o.own = &owners{m: map[*pipeline.Event]int{}}
 	ctx, cancel := context.WithCancel(context.Background())
 	o.cancel = cancel
 	switch o.cfg.kind {
@@ -395,7 +450,7 @@ func (o *fakeOutput) Start(_ pipeline.AnyConfig, p *pipeline.OutputPluginParams)
 		o.stop = func() {}
 	case 1:
 		bo := pipeline.BatcherOptions{
-			PipelineName: p.PipelineName, OutputType: "verif", Controller: &recCtl{o.log, func() any { return o.batch }, o.ctl},
+			PipelineName: p.PipelineName, OutputType: "verif", Controller: &recCtl{o.log, func() any { return o.batch }, o.ctl, 0, o.own},
 			OutFn:   func(_ *pipeline.WorkerData, b *pipeline.Batch) { _ = o.send(0, b) },
 			Workers: o.cfg.workers, BatchSizeCount: o.cfg.count, FlushTimeout: time.Duration(o.cfg.flushMs) * time.Millisecond,
 			MetricCtl: p.MetricCtl,
@@ -408,7 +463,7 @@ func (o *fakeOutput) Start(_ pipeline.AnyConfig, p *pipeline.OutputPluginParams)
 	case 2:
 		if o.cfg.deadq {
 			o.dq = pipeline.NewBatcher(pipeline.BatcherOptions{
-				PipelineName: p.PipelineName, OutputType: "verifdq", Controller: &recCtl{o.log, func() any { return o.dq }, o.ctl},
+				PipelineName: p.PipelineName, OutputType: "verifdq", Controller: &recCtl{o.log, func() any { return o.dq }, o.ctl, 1, o.own},
 				OutFn:   func(_ *pipeline.WorkerData, b *pipeline.Batch) { _ = o.send(1, b) },
 				Workers: 1, BatchSizeCount: o.cfg.count, FlushTimeout: time.Duration(o.cfg.flushMs) * time.Millisecond,
 				MetricCtl: p.MetricCtl,
@@ -417,7 +472,7 @@ func (o *fakeOutput) Start(_ pipeline.AnyConfig, p *pipeline.OutputPluginParams)
 			o.dq.Start(ctx)
 		}
 		opts := pipeline.BatcherOptions{
-			PipelineName: p.PipelineName, OutputType: "verif", Controller: &recCtl{o.log, func() any { return o.batch }, o.ctl},
+			PipelineName: p.PipelineName, OutputType: "verif", Controller: &recCtl{o.log, func() any { return o.batch }, o.ctl, 0, o.own},
 			Workers: o.cfg.workers, BatchSizeCount: o.cfg.count, FlushTimeout: time.Duration(o.cfg.flushMs) * time.Millisecond,
 			MetricCtl: p.MetricCtl,
 		}
@@ -453,6 +508,9 @@ func (o *fakeOutput) Stop() {
 func (o *fakeOutput) Out(e *pipeline.Event) {
 	if c := checkEvent(e); c != 0 {
 		o.log.add(o.ctl, LPanic, int64(c), -1, 0, 0)
+	}
+	if o.cfg.kind != 0 {
+		o.own.set(e, 0)
 	}
 	o.add(e)
 }
@@ -490,7 +548,10 @@ func ExpandEvent(js []byte, off int64, padLen, nWide int) []byte {
 //	            object "w" of nWide fields k0..: the text grows past AvgEventSize / the Root past its node pool without the
 //	            case text growing; the event says what it must contain ("plen", "off", "wn": see checkEvent)
 //	plan = ((delayMs failures) ...) per main batch seq
-//	ext  = (avgEventSize retentionMs multiplierPercent maintenanceMs), optional; 0 = default (256, 1 ms, 1.0, no maintenance hook)
+//	ext  = (avgEventSize retentionMs multiplierPercent maintenanceMs [dqDelayMs]), optional; 0 = default (256, 1 ms, 1.0, no
+//	       maintenance hook, dead-queue sends return at once).  retentionMs > 1 800 000 (30 min) makes the backoff library answer
+//	       backoff.Stop on the FIRST failure of a batch (elapsed + next interval > its MaxElapsedTime of 15 min; the interval is
+//	       drawn from [0.5, 1.5] x retention), whatever the retry count says: the give-up label then carries stop = 1
 //
 // observable = ((objkind objidx kind a b c d) ...) with pointers replaced by indices of first appearance.
 func RunCase(cs hx.Sx) hx.Sx {
@@ -514,7 +575,7 @@ func RunCase(cs hx.Sx) hx.Sx {
 		if x(0) > 0 {
 			avgEventSize = x(0)
 		}
-		oc.retentionMs, oc.multPct, oc.maintMs = x(1), x(2), x(3)
+		oc.retentionMs, oc.multPct, oc.maintMs, oc.dqDelayMs = x(1), x(2), x(3), x(4)
 	}
 
 	log := &caseLog{}
@@ -678,7 +739,7 @@ func RunCase(cs hx.Sx) hx.Sx {
 	// cannot turn a slow run into a false "stuck": the run counts as wedged only when NO label other
 	// than heartbeat ticks was emitted for a whole idle window (event time-out + several heartbeat
 	// periods + flush + retry pauses) while events are still in use; hard cap 60 s.
-	idleWindow := time.Duration(3000+8*evTimeout+6*oc.flushMs) * time.Millisecond
+	idleWindow := time.Duration(3000+8*evTimeout+6*oc.flushMs+2*oc.dqDelayMs) * time.Millisecond
 	hardCap := time.Now().Add(60 * time.Second)
 	progress := func() int {
 		log.mu.Lock()
